@@ -56,6 +56,10 @@ Section Process.
      [resolve d p] = the file that path p names when the working directory is d.  An absolute path has
      [resolve d p = p] for every d. *)
   Variable resolve : dir -> nat -> nat.
+  (* against which directory a program opens the request path: [opendir pkg d] for the program living in pkg,
+     called from working directory d.  The code under test chdirs to pkg before opening ([code_opendir]: pkg);
+     handing main() a path made absolute at request time would be [caller_opendir]: d. *)
+  Variable opendir : dir -> dir -> dir.
   Variable runh : nat -> C -> option R.   (* the HIP-RA programs (1 = hip_ra_x, 2 = hip_ra) on a file content *)
   (* the key of the client's result cache, computed from the requested path and the content its file has at
      request time.  The code under test uses [path_key] (hash of the path, content ignored); [content_key]
@@ -104,7 +108,7 @@ Section Process.
   Definition prog_run (pkg : dir) (oracle : C -> option R) (st : state) : state * option R :=
     let st1 := set_cwd st pkg in
     match nth_error (argv st) 1 with
-    | Some (AIn p) => (st1, expected_with oracle (files st) (resolve pkg p))
+    | Some (AIn p) => (st1, expected_with oracle (files st) (resolve (opendir pkg (cwd st)) p))
     | _ => (st1, None)
     end.
   Definition main_run (st : state) : state * option R := prog_run DSrc run st.
@@ -240,6 +244,10 @@ Fixpoint mc_package {C : Type} (m : nat) (ps : list nat) (c : C) : list (op C) :
    Concrete instance used by the correspondence: contents and results are numbers, the result of a
    content is the content itself (so a returned result names the content it was computed from),
    contents listed in [okc] run, all others raise; hash = the path identifier. *)
+(* where the code under test opens a request path: in the program's own directory; and the repair *)
+Definition code_opendir (pkg _ : dir) : dir := pkg.
+Definition caller_opendir (_ d : dir) : dir := d.
+
 (* the cache key of the code under test: hash(file path), whatever the file holds *)
 Definition path_key {C : Type} (hash : nat -> Z) (p : nat) (_ : option C) : Z := hash p.
 
@@ -340,13 +348,16 @@ Definition F_REL : N := 5.       (* property: the same, and it is exactly the mo
 Definition F_HARNESS : N := 9.   (* observation list and operation list differ in length *)
 
 (* the two instances the correspondence runs *)
-Definition ptrace (g : cfg) (fixed : bool) (d : dir) (a : list arg) (ops : list (op nat)) : list (event nat nat Z) :=
-  trace nat nat (crun (g_okc g)) chash (cresolve (g_rt g)) (crunh (g_okh g)) Z Z.eqb (path_key chash) fixed
+Definition ptrace_with (od : dir -> dir -> dir) (g : cfg) (fixed : bool) (d : dir) (a : list arg) (ops : list (op nat))
+  : list (event nat nat Z) :=
+  trace nat nat (crun (g_okc g)) chash (cresolve (g_rt g)) od (crunh (g_okh g)) Z Z.eqb (path_key chash) fixed
         (init d a (g_files g)) ops.
-Definition ctrace (g : cfg) (fixed : bool) (d : dir) (a : list arg) (ops : list (op nat))
+Definition ctrace_with (od : dir -> dir -> dir) (g : cfg) (fixed : bool) (d : dir) (a : list arg) (ops : list (op nat))
   : list (event nat nat (Z * option nat)) :=
-  trace nat nat (crun (g_okc g)) chash (cresolve (g_rt g)) (crunh (g_okh g)) (Z * option nat) (content_keq Nat.eqb)
+  trace nat nat (crun (g_okc g)) chash (cresolve (g_rt g)) od (crunh (g_okh g)) (Z * option nat) (content_keq Nat.eqb)
         (content_key chash) fixed (init d a (g_files g)) ops.
+Definition ptrace := ptrace_with code_opendir.     (* the code under test *)
+Definition ctrace := ctrace_with code_opendir.     (* ... with the content-keyed cache *)
 
 Definition obs_matches {K : Type} (e : event nat nat K) (b : obs) : bool :=
   dir_eqb (cwd (after e)) (o_cwd_after b) && list_eqb arg_eqb (argv (after e)) (o_argv_after b)
@@ -399,6 +410,11 @@ Definition session_matches (fixed : bool) (g : cfg) (d : dir) (a : list arg) (op
   (os : list obs) : bool := all_match (ptrace g fixed d a ops) os.
 Definition session_matches_repaired (fixed : bool) (g : cfg) (d : dir) (a : list arg) (ops : list (op nat))
   (os : list obs) : bool := all_match (ctrace g fixed d a ops) os.
+(* request paths opened against the CALLER's directory (the repair of the relative-path defect), with either cache *)
+Definition session_matches_callerdir (content_keyed : bool) (g : cfg) (d : dir) (a : list arg) (ops : list (op nat))
+  (os : list obs) : bool :=
+  if content_keyed then all_match (ctrace_with caller_opendir g true d a ops) os
+  else all_match (ptrace_with caller_opendir g true d a ops) os.
 
 (* many sessions: (number of sessions, [session * 100000 + step * 10 + code]) *)
 Fixpoint sessions_codes (k : N) (l : list (list N)) : list N :=
